@@ -195,7 +195,13 @@ def analyze(kit):
             r13.count("steps", T)
             # successive automatic resets use different keys (random generators do not replay the instance)
             r13.evaluations += 1
-            if len(set(reset_keys)) != len(reset_keys) or np.asarray(k0).tobytes() in reset_keys:
+            const_key = any(w in cfg["label"] for w in ("toy", "dummy", "csv"))
+            if const_key and len(set(reset_keys)) != len(reset_keys):
+                # Toy/CSV generators ignore their key and store a constant PRNGKey(0) in the state: the wrapper derives the
+                # reset key from the terminal state's key as specified, the (deterministic) instance is the same anyway.
+                # Outside C13_fresh_keys by its key-discipline hypothesis (DESIGN section 5 C13); counted, not alarmed.
+                r13.count("constant-key-generator:reset-keys-repeat")
+            elif len(set(reset_keys)) != len(reset_keys) or np.asarray(k0).tobytes() in reset_keys:
                 kit.fail(["C13"], "two automatic resets used the same key", dict(cfg=cfg["label"], op="ar-fresh-keys", nx=nx), dict(seed=kit.seed, n=len(reset_keys)))
             if len(r13.samples) < 2:
                 r13.samples.append(dict(env=name, cfg=cfg["label"], nx=nx, step_types=hist, auto_resets=episodes))
